@@ -71,6 +71,14 @@ TARGETS = {
                  "--foreign", "Value{n:Option<f64>}", "--extern-method", "Value::as_number=value_as_number:Option<f64>",
                  "--import", "Base.F64", "--import", "Api.IntDeser", "--import", "Api.IntDeserExt"],
     },
+    # api/src/lib.rs: Value::array_len / obj_len - the inline length, the sentinel and the length query (C11)
+    "ApiLenGen": {
+        "src": "api/src/lib.rs",
+        "args": ["--types", "Value", "--only", "array_len,obj_len", "--also", "{repo}/core/src/read.rs:NanBox,ValueRef", "--newtype", "NanBox",
+                 "--assoc-consts-of-w", "", "--extern-enum", "ErrorCode=EC_", "--extern-consts-of-w",
+                 "--extern-fn", "shopify_function_input_get_val_len=ffi_get_val_len:usize", "--oracle", "ffi_get_val_len:N -> N",
+                 "--import", "Gen.NanBoxGen", "--import", "NanBox.NanBoxExt", "--import", "Gen.NanBoxFnGen"],
+    },
 }
 
 
